@@ -5,6 +5,17 @@ import Mathlib.Tactic.Linarith
 /-!
 Streaming stages 3 and 4 of `lmplz` (`Model/KN.lean` §4–§5) against the set-based
 specification (`Model/KNSpec.lean`): theorem family `interp_eq` of property C05.
+
+* §1–2 `addRight_eq`, `mergeRight_eq`, `mergeRightUnigram_eq` (+ `specUninterp1_uGamma`)
+* §3 `ctxRuns_ok`/`ctxRuns_sorted`/`ctxRuns_eq_filter`, `runs_perm_group`, `initialOrder_gams`
+* §4 `dropLast_le_of_lt`, `dropLast_sorted`, `joinLower_eq`, `joinLower_error(_only)`
+* §5 `takeBackoffsSeq_eq`, `takeBackoffsHash_eq`
+* §6 `interpOrder_eq` (per-record formula under `LowerOK`/`NextOK`)
+* §7 `initialOrder_us(1)`, `gamOf_initialOrder`, `boVal_backoff`, `interpOrder_spec`
+* §8 `us_map_entry`, `interpOrder_specOrder` (= the entry list `Spec.estimateFrom` writes)
+* §10 `interpAll_eq`, `interp_eq` (all orders, under `OrderOK`); `ClosureFacts`,
+  `OrderOKOfClosure` are stated only
+* §11 non-vacuity examples
 -/
 namespace KV.KN.Interp
 
@@ -1055,7 +1066,132 @@ theorem interpOrder_specOrder (c : Spec.Ctx) (n : Nat) (hn0 : 1 ≤ n)
   · rw [initialOrder_us _ _ _ _ hn]
     exact us_map_entry c _ _ fun _ => rfl
 
-/-! ## 9. Non-vacuity: the hypotheses are satisfiable and the conclusions non-trivial -/
+/-! ## 10. All orders (`interpAll`) -/
+
+/-- stage 3 of order `k` for the records and discounts of `c` -/
+def stage3Of (c : Spec.Ctx) (k : Nat) : List Uninterp × List Gam :=
+  initialOrder c.cfg.interpUni k (c.dAt k) (c.esAt k)
+
+/-- what `interpAll` passes down as the lower order of order `n` -/
+def lowerOf (c : Spec.Ctx) (n : Nat) : Option (List (Gram × Rat)) :=
+  if n = 1 then none else some ((specOrder c (n - 1)).map fun e => (e.gram, e.p))
+
+/-- what `interpAll` passes as the gammas of the next order -/
+def nextOf (c : Spec.Ctx) (pruned : Nat → Bool) (n : Nat) : Option (List Gam × Bool) :=
+  if n < c.cfg.order then some ((stage3Of c (n + 1)).2, pruned n) else none
+
+/-- the record facts about order `n` that the streaming stage 4 relies on -/
+structure OrderOK (c : Spec.Ctx) (pruned : Nat → Bool) (n : Nat) : Prop where
+  len : ∀ e ∈ c.esAt n, e.gram.length = n
+  nd : ((c.esAt n).map (·.gram)).Nodup
+  unmarked : n = 1 → ∀ e ∈ c.esAt 1, e.gram ≠ [unk] → e.gram ≠ [bos] → e.marked = false
+  lower : LowerOK (stage3Of c n).1 (lowerOf c n)
+  next : NextOK (stage3Of c n).1 (nextOf c pruned n)
+
+theorem specOrder_p (c : Spec.Ctx) (n : Nat) : ∀ e ∈ specOrder c n, e.p = c.prob e.gram := by
+  intro e he
+  have := (List.mergeSort_perm _ _).mem_iff.mp he
+  rcases List.mem_map.mp this with ⟨x, _, rfl⟩
+  rfl
+
+theorem interpOrder_ok (c : Spec.Ctx) (pruned : Nat → Bool) (n : Nat) (hn0 : 1 ≤ n)
+    (h : OrderOK c pruned n) :
+    interpOrder n (stage3Of c n).1 (lowerOf c n) c.uniform (nextOf c pruned n)
+      = .ok (specOrder c n) := by
+  apply interpOrder_specOrder c n hn0 h.len h.nd h.unmarked _ rfl _ _ _ _ h.lower h.next
+  · unfold lowerOf
+    by_cases h1 : n = 1
+    · simp [h1]
+    · simp only [h1, if_false]
+      refine ⟨h1, ?_⟩
+      intro kp hkp
+      rcases List.mem_map.mp hkp with ⟨e, he, rfl⟩
+      exact specOrder_p c (n - 1) e he
+  · unfold nextOf
+    by_cases h1 : n < c.cfg.order
+    · rw [if_pos h1]; exact ⟨h1, rfl⟩
+    · rw [if_neg h1]; exact h1
+
+/-- **`interp_eq`, all orders**: when every order satisfies `OrderOK`, the streaming stage 4 run
+on the streaming stage 3 produces the entry lists of the specification, order by order -/
+theorem interpAll_eq (c : Spec.Ctx) (pruned : Nat → Bool)
+    (hok : ∀ n, 1 ≤ n → n ≤ c.cfg.order → OrderOK c pruned n) :
+    ∀ (m n : Nat), 1 ≤ n → n + m = c.cfg.order + 1 →
+      interpAll pruned c.uniform n ((List.range' n m).map (stage3Of c)) (lowerOf c n)
+        = .ok ((List.range' n m).map (specOrder c)) := by
+  intro m
+  induction m with
+  | zero => intro n _ _; rfl
+  | succ m ih =>
+    intro n hn0 hnm
+    have hle : n ≤ c.cfg.order := by omega
+    have hord := interpOrder_ok c pruned n hn0 (hok n hn0 hle)
+    have hnext : (match (List.range' (n + 1) m).map (stage3Of c) with
+        | (_, gams) :: _ => some (gams, pruned n)
+        | [] => none) = nextOf c pruned n := by
+      unfold nextOf
+      cases m with
+      | zero => have : ¬ n < c.cfg.order := by omega
+                simp [this]
+      | succ m' => have : n < c.cfg.order := by omega
+                   simp [this, List.range'_succ]
+    have hlow : (some ((specOrder c n).map fun e => (e.gram, e.p)) : Option (List (Gram × Rat)))
+        = lowerOf c (n + 1) := by
+      unfold lowerOf
+      have : n + 1 ≠ 1 := by omega
+      rw [if_neg this]; rfl
+    rw [List.range'_succ, List.map_cons, List.map_cons]
+    show (do
+      let es ← interpOrder n (stage3Of c n).1 (lowerOf c n) c.uniform
+        (match (List.range' (n + 1) m).map (stage3Of c) with
+          | (_, gams) :: _ => some (gams, pruned n)
+          | [] => none)
+      let tl ← interpAll pruned c.uniform (n + 1) ((List.range' (n + 1) m).map (stage3Of c))
+        (some (es.map fun e : Entry => (e.gram, e.p)))
+      pure (es :: tl)) = _
+    rw [hnext, hord]
+    simp only [bind, Except.bind]
+    rw [hlow, ih (n + 1) (by omega) (by omega)]
+    rfl
+
+/-- **`interp_eq`**: stage 4 on stage 3, from order 1 with no lower order -/
+theorem interp_eq (c : Spec.Ctx) (pruned : Nat → Bool)
+    (hok : ∀ n, 1 ≤ n → n ≤ c.cfg.order → OrderOK c pruned n) :
+    interpAll pruned c.uniform 1 ((List.range' 1 c.cfg.order).map (stage3Of c)) none
+      = .ok ((List.range' 1 c.cfg.order).map (specOrder c)) :=
+  interpAll_eq c pruned hok c.cfg.order 1 (Nat.le_refl 1) (by omega)
+
+/-! ### What is left (stated, not proved)
+
+`OrderOK.lower` and `OrderOK.next` are ordering-plus-closure facts about the streams.  The
+ordering halves follow from lemmas above (`dropLast_sorted` with `pairwise_mergeSort` for the
+upper stream, `specOrder` sorted with distinct n-grams for the lower stream, `initialOrder_gams`
+for the gammas; two strictly sorted lists are sublists of each other as soon as they are
+subsets).  What then remains are the three closure facts below, which speak about the records
+only. -/
+
+/-- closure facts of order `n`: the back-off n-gram of a kept record is a kept record of the
+lower order; a kept record that asks for a back-off is the context of a record of the next
+order; and, when the next order is not pruned, conversely every context of the next order is
+a kept record that asks for a back-off -/
+def ClosureFacts (c : Spec.Ctx) (pruned : Nat → Bool) (n : Nat) : Prop :=
+  (n ≠ 1 → ∀ e ∈ c.esAt n, keptBy e = true →
+      ∃ e' ∈ c.esAt (n - 1), keptBy e' = true ∧ e'.gram = e.gram.dropLast) ∧
+  (n < c.cfg.order → ∀ e ∈ c.esAt n, keptBy e = true → wantsBackoff e.gram = true →
+      ∃ e' ∈ c.esAt (n + 1), e'.gram.tail = e.gram) ∧
+  (n < c.cfg.order → pruned n = false → ∀ e' ∈ c.esAt (n + 1),
+      ∃ e ∈ c.esAt n, keptBy e = true ∧ wantsBackoff e.gram = true ∧ e.gram = e'.gram.tail)
+
+/-- the intended reduction of `OrderOK` to record facts (not proved here; needs
+`interpOrder`-independent list lemmas only: sections 3, 4 and `initialOrder_gams`) -/
+def OrderOKOfClosure : Prop :=
+  ∀ (c : Spec.Ctx) (pruned : Nat → Bool) (n : Nat), 1 ≤ n → n ≤ c.cfg.order →
+    (∀ k, 1 ≤ k → k ≤ c.cfg.order → (∀ e ∈ c.esAt k, e.gram.length = k) ∧
+      ((c.esAt k).map (·.gram)).Nodup) →
+    (∀ e ∈ c.esAt 1, e.gram ≠ [unk] → e.gram ≠ [bos] → e.marked = false) →
+    ClosureFacts c pruned n → OrderOK c pruned n
+
+/-! ## 11. Non-vacuity: the hypotheses are satisfiable and the conclusions non-trivial -/
 
 def exD : Disc := ⟨1/2, 1, 3/2⟩
 def exEs : List Emit := [⟨[7, 5], 2, false⟩, ⟨[9, 6], 4, false⟩, ⟨[8, 5], 1, true⟩, ⟨[3, 5], 3, false⟩]
